@@ -210,7 +210,12 @@ def sApply (toks : List String) (m : SS) : List SS :=
   | ["push", i, "err", e] => [{ m with q := m.q.set (natOr i) (m.q.getD (natOr i) [] ++ [.err (natOr e)]) }]
   | ["cnext", l] => ((step m.s (.cCall (l == "live"))).map fun s' => { m with s := s' }).toList
   | ["close"] => ((step m.s .cClose).map fun s' => { m with s := s' }).toList
+  -- the context of the pending `Next` is cancelled
+  | ["ccancel"] => ((step m.s .cExpire).map fun s' => { m with s := s' }).toList
   | ["crel", i] => [{ m with slow := m.slow.set (natOr i) false }]
+  -- virtual time passes (any duration): the model has no clock; the only thing time can do is end the
+  -- context handed to the inputs, if its origin allows (`ctxEnds`: dead when `origin = plainCancel`)
+  | ["sleep", _] => m :: ((step m.s .ctxEnds).map fun s' => { m with s := s' }).toList
   | _ => []
 
 def parseCmds (s : String) : List Cmd :=
